@@ -19,7 +19,7 @@ GENS = [("SafePrimeWorkers.gen.real2.cfg", "real", 400, None, None),
         ("SafePrimeWorkers.gen.ext3.cfg", "ext", 2000, 400, None),
         ("SafePrimeWorkers.gen.realerr2.cfg", "real", 1500, 500, None),
         ("SafePrimeWorkers.gen.exterr2.cfg", "ext", 2500, 500, None),
-        ("SafePrimeWorkers.gen.realerr3.cfg", "real", 15000, 0, 4000)]   # last column: cap in the thorough tier
+        ("SafePrimeWorkers.gen.realerr3.cfg", "real", 15000, 0, 10000)]   # last column: cap in the thorough tier
 
 
 def probes(chk):
@@ -108,7 +108,7 @@ def run(chk):
 
     # 3. volume: real code -> spec (before the gate replay: if the consumer loop itself deviates from KeyGen.tla, that is said here)
     trace = os.path.join(vplib.sub("c16"), "trace.ndjson")
-    nk = 2000 if thorough else 250
+    nk = 5000 if thorough else 250
     vol = vplib.vh("kg", ["volume", "--n", str(nk), "--tier", T, "--seed", str(chk.seed), trace], timeout=3000)
     chk.add_replay(vol, "volume")
     tv = vplib.tlc("KeyGenTrace", "KeyGen.trace.cfg", workers=1, timeout=1500,
